@@ -76,9 +76,6 @@ FREES(s->v.elem.base)
 ENSURES(S_WF_POST(s) && S_SIZE(s) == n && s->v.count == n + 1 && S_DATA(s)[n] == NUL)
 #ifndef VF_S_EMPTY
 ENSURES((vf_w_g < n && vf_w_g < vf_w_size) ==> S_DATA(s)[vf_w_g] == OLD(S_DATA(s)[vf_w_g]))
-#ifndef VF_ASSUMED_POST   /* (pointer identity is not part of the assumed form, see S_WF_POST) */
-ENSURES(n + 1 <= vf_w_cap ==> s->v.elem.base == OLD(s->v.elem.base))
-#endif
 #endif
 ;
 
@@ -97,7 +94,6 @@ ENSURES(S_WF(s) && S_SIZE(s) == vf_w_size - (len > vf_w_size - idx ? vf_w_size -
 ENSURES((vf_w_g < idx && vf_w_g < S_SIZE(s)) ==> S_DATA(s)[vf_w_g] == OLD(S_DATA(s)[vf_w_g]))
 /* ... and old character h behind the erased range moves down by len' */
 ENSURES(((vf_u128)vf_w_h >= (vf_u128)idx + S_LENP(len, idx)) ==> S_DATA(s)[vf_w_h - S_LENP(len, idx)] == OLD(S_DATA(s)[vf_w_h]))
-ENSURES(s->v.elem.base == OLD(s->v.elem.base))
 ;
 
 /* prep_insert: a position beyond the end aborts; otherwise a gap of len characters opens at pos */
@@ -306,7 +302,6 @@ ENSURES(s->v.count == 0 && S_NUM(s) && ((s->v.elem.base == NULL && s->v.cap == 0
 #else
 ENSURES(S_WF(s) && S_SIZE(s) == vf_w_size && s->v.count == vf_w_size + 1)
 ENSURES(s->v.cap == vf_w_cap || (s->v.cap == sz + 1 && sz + 1 > vf_w_cap))
-ENSURES(sz + 1 <= vf_w_cap ==> s->v.elem.base == OLD(s->v.elem.base))
 ENSURES(vf_w_g < vf_w_size ==> S_DATA(s)[vf_w_g] == OLD(S_DATA(s)[vf_w_g]))
 #endif
 ;
